@@ -10,6 +10,15 @@ claimed = {
  "C09": dict(cat="model_checking", tech="stateless schedule exploration of the real code (iterative preemption bounding) + race detector per schedule",
              text="Every interleaving of 2 connection threads (bind/bind, unbind+bind/bind, two features) up to the stated preemption bound is executed on the real BindingManager under a controlled scheduler; at the end of each schedule |bindings per server feature| <= 1, one result per call, grants == registry entries, ids distinct.",
              ref="4 C09"),
+ "C08": dict(cat="model_checking", tech="explicit-state BFS over operation histories on the real code (replay on a fresh instance), reference model stepped alongside",
+             text="Breadth-first search to closure over subscribe/unsubscribe (valid, duplicate, wrong role/type, unknown addresses, omitted device) and data changes by two peers with identical numbering; after every transition the real registry, every outbound datagram of every connection and the event log are compared with a reference registry (exactly one notify per subscriber, nobody else).",
+             ref="4 C08"),
+ "C03": dict(cat="model_checking", tech="explicit-state BFS over operation histories on the real code, reference model stepped alongside",
+             text="Breadth-first search over bind/unbind/disconnect/reconnect/entity removal/write histories of two peers against two server features (writable and read-only functions); every write is judged: accepted iff the reference registry holds exactly that binding and the function is writable; otherwise store, subscribers' connections and event log unchanged and exactly one error result.",
+             ref="4 C03"),
+ "C10": dict(cat="model_checking", tech="explicit-state BFS over operation histories on the real code (virtual clock for approval timeouts), reference model stepped alongside",
+             text="Breadth-first search over histories of subscribe/bind/local client bookkeeping/writes pending approval/disconnect/entity removal/reconnect/timer expiry by two peers with identical numbering; after each transition registries, bookkeeping, pending approvals, armed timers, resolution by SKI/address, events and every connection's outbound trace (including removed connections) are compared with the reference.",
+             ref="4 C10"),
 }
 checks = []
 for pid, c in sorted(claimed.items()):
